@@ -32,15 +32,43 @@ class FunctionalSpsolve:
         self.origin = {}     # fresh symbol name -> (call key, position, data nodes, b nodes)
 
     def __call__(self, data, indices, indptr, b, **kw):
-        d, bb = sym.to_obj(data), sym.to_obj(b)
-        struct = (np.asarray(indices).tobytes(), np.asarray(indptr).tobytes())
-        key = (tuple(n.id for n in d.reshape(-1)), struct, tuple(n.id for n in bb.reshape(-1)))
-        if key not in self.cache:
-            y = sym.symvec(f"sp{len(self.cache)}_", len(bb))
-            self.cache[key] = y
-            for k, n in enumerate(y):
-                self.origin[n.args[0]] = (struct, k, list(d.reshape(-1)), list(bb.reshape(-1)))
-        return self.cache[key]
+        """The matrix is split into the connected components of its (concrete) sparsity pattern and each diagonal
+        block is an application of its own: the solution of a block-diagonal system is the blockwise solution
+        (exact for nonsingular blocks; C01 shows the blocks weakly chained diagonally dominant).  A cell inside a
+        synapse-free network is then the same application as the cell alone."""
+        d, bb = sym.to_obj(data).reshape(-1), sym.to_obj(b).reshape(-1)
+        ind, ptr = np.asarray(indices).astype(int), np.asarray(indptr).astype(int)
+        n = len(bb)
+        parent = list(range(n))
+        def find(x):
+            while parent[x] != x:
+                parent[x] = parent[parent[x]]; x = parent[x]
+            return x
+        for r in range(n):
+            for c in ind[ptr[r]:ptr[r + 1]]:
+                ra, rc = find(r), find(int(c))
+                if ra != rc: parent[max(ra, rc)] = min(ra, rc)
+        comps = {}
+        for r in range(n): comps.setdefault(find(r), []).append(r)
+        out = np.empty(n, dtype=object)
+        for rows in comps.values():
+            loc = {g: l for l, g in enumerate(rows)}
+            l_ind, l_ptr, l_dat = [], [0], []
+            for g in rows:
+                for e in range(ptr[g], ptr[g + 1]):
+                    l_ind.append(loc[int(ind[e])]); l_dat.append(d[e])
+                l_ptr.append(len(l_ind))
+            struct = (np.asarray(l_ind).tobytes(), np.asarray(l_ptr).tobytes())
+            bl = [bb[g] for g in rows]
+            key = (tuple(x.id for x in l_dat), struct, tuple(x.id for x in bl))
+            if key not in self.cache:
+                y = sym.symvec(f"sp{len(self.cache)}_", len(rows))
+                self.cache[key] = y
+                for k, nd in enumerate(y):
+                    self.origin[nd.args[0]] = (struct, k, list(l_dat), list(bl))
+            y = self.cache[key]
+            for l, g in enumerate(rows): out[g] = y[l]
+        return out
 
     def resolver(self, a, b):
         """function congruence: y_k = spsolve(A, b)_k and y'_k = spsolve(A', b')_k are equal
